@@ -1133,7 +1133,39 @@ func (w *world) walkNode(n ast.Node, fr *frame) []Point {
 				ad = append(ad, t != nil && isContext(t) && w.derivedExpr(fr, a))
 			}
 		}
-		pts = append(pts, w.follow(fn, ad, paramsOK, fr.caller)...)
+		res := w.follow(fn, ad, paramsOK, fr.caller)
+		// channel identity through PARAMETERS (refactoring R2: `reportSyncError(errCh, err)`): a chan-typed parameter IS the
+		// channel it receives at the call being followed - the callee's points on it are renamed to the argument's name (the
+		// summary is shared: renamed on a copy); transitive, since the callee's own calls were renamed the same way
+		if call != nil {
+			if sig, ok := fn.Type().(*types.Signature); ok {
+				ren := map[string]string{}
+				for i, a := range call.Args {
+					if i >= sig.Params().Len() {
+						break
+					}
+					prm := sig.Params().At(i)
+					if _, isChan := prm.Type().Underlying().(*types.Chan); isChan && prm.Name() != "" && prm.Name() != "_" {
+						if an := chanName(a); an != prm.Name() && !strings.HasPrefix(an, "<") {
+							ren[prm.Name()] = an
+						}
+					}
+				}
+				if len(ren) > 0 {
+					cp := make([]Point, len(res))
+					copy(cp, res)
+					for i := range cp {
+						if cp[i].Kind == 2 || cp[i].Kind == 3 {
+							if n, ok := ren[cp[i].CName]; ok {
+								cp[i].CName = n
+							}
+						}
+					}
+					res = cp
+				}
+			}
+		}
+		pts = append(pts, res...)
 	}
 	// a func value used as a value (argument, assignment, method value): the repository function behind it is followed here
 	valueRef := func(e ast.Expr) {
